@@ -125,7 +125,7 @@ class RecListener(plumpy.ProcessListener):
         self.run.rec.ev(self.channel, name, _jsonable(list(info)), plumpy.Process.current() is proc)
         if self.channel == 'listener':
             self.run._trigger(['listener', name, n])
-        if self.raising:
+        if self.raising is True or (self.raising == 'terminal' and name in ('finished', 'killed', 'excepted')):
             # a broken observer: plumpy logs this and carries on with the other listeners
             raise RuntimeError('listener %s is broken (%s)' % (self.channel, name))
 
@@ -152,6 +152,15 @@ class RecListener(plumpy.ProcessListener):
 
     def on_process_killed(self, process, msg):
         self._ev('killed', process, msg)
+
+
+def _failing_cleanup(which='function'):
+    raise RuntimeError('cleanup %s fails' % which)
+
+
+class _FailingCleanup:
+    def __call__(self):
+        raise RuntimeError('cleanup object fails')
 
 
 class Run:
@@ -332,8 +341,16 @@ class Run:
             if case.get('cleanup_chain'):
                 # a cleanup that, when it runs, registers one more (accepted by add_cleanup, so it has to run as well, once)
                 proc.add_cleanup(lambda: (self.rec.ev('cleanup-first'), proc.add_cleanup(lambda: self.rec.ev('cleanup-late'))))
+            if case.get('failing_cleanups'):
+                # cleanups that fail, of every callable shape add_cleanup() is given in practice: a function, a functools.partial (what
+                # Process.init registers for its subscriptions) and a callable object -- tolerated by the process, one by one
+                import functools
+                proc.add_cleanup(_failing_cleanup)
+                proc.add_cleanup(functools.partial(_failing_cleanup, 'partial'))
+                proc.add_cleanup(_FailingCleanup())
             if case.get('listener', True):
-                raising = case.get('listener') == 'raising'
+                # ('raising-terminal': broken only in its handling of the three endings)
+                raising = {'raising': True, 'raising-terminal': 'terminal'}.get(case.get('listener'), False)
                 self.listener = RecListener(self, raising=raising)
                 proc.add_process_listener(self.listener)
                 if case.get('listener') == 'twice':
@@ -345,7 +362,7 @@ class Run:
                     proc.remove_process_listener(self.listeners_more[0])
                 if raising:
                     # two more observers, all of them broken: whatever the iteration order, each must still be told
-                    self.listeners_more = [RecListener(self, 'listener%d' % k, True) for k in (2, 3)]
+                    self.listeners_more = [RecListener(self, 'listener%d' % k, raising) for k in (2, 3)]
                     for extra in self.listeners_more:
                         proc.add_process_listener(extra)
             if case.get('oneshot'):
